@@ -73,7 +73,26 @@ def gen_scenario(rng):
                 del f[k]
             if not f:
                 f = {(labels[0],): 1}
-    return {"spin": spin, "labels": labels, "f": f, "steps": steps, "extra": rng.choice([1, 2, 0.5])}
+    return {"spin": spin, "labels": labels, "f": f, "steps": steps, "extra": rng.choice([1, 2, 0.5]),
+            "fork": rng.choice([None, None, "copy", "add0", "mul1", "ctor", "neg"])}
+
+
+def gate_like_scenarios():
+    """directed, exhaustive family: equality constraints that ARE a gate identity (z = OR / NAND / NOR / AND of x, y) or merely look like
+    one (the product sits on the wrong pair), times every assignment as the point the objective pulls towards"""
+    z, x, y = "z", "x", "y"
+    forms = [{(z,): 1, (x,): -1, (y,): -1, (x, y): 1}, {(z,): 1, (x,): -1, (y,): -1, (z, x): 1}, {(z,): 1, (x,): -1, (y,): -1, (z, y): 1},
+             {(z,): 1, (): -1, (x, y): 1}, {(z,): 1, (): -1, (z, x): 1},
+             {(z,): 1, (): -1, (x,): 1, (y,): 1, (x, y): -1}, {(z,): 1, (): -1, (x,): 1, (y,): 1, (z, x): -1},
+             {(z,): 1, (x, y): -1}, {(z,): 1, (z, x): -1}]
+    out = []
+    for P in forms:
+        for scale in (1, -2):
+            for bits in itertools.product([0, 1], repeat=3):
+                f = {(l,): (-1 if b else 1) for l, b in zip((z, x, y), bits)}
+                out.append({"spin": False, "labels": [z, x, y], "f": f, "extra": 1, "fork": None,
+                            "steps": [{"mode": "cmp", "P": {k: scale * v for k, v in P.items()}, "rel": "eq", "lt": True}]})
+    return out
 
 
 def holds(rel, v):
@@ -115,6 +134,12 @@ def run_scenario(sc, sid, first_id):
                     cons_rec.append({"mode": "gate", "rel": "eq", "P": [], "gate": st["gate"], "geq": st["geq"],
                                      "ga": list(st["a"][2].items()) if st["geq"] else [], "ops": [list(o[2].items()) for o in st["ops"]],
                                      "lam": lam})
+            if sc.get("fork"):
+                # a model derived from H is given further constraints; H itself must not notice (DESIGN 3, C03)
+                try:
+                    cs.fork_and_abuse(H, sc["fork"], labels[0], spin)
+                except Exception:       # noqa
+                    pass
             X = [l for l in labels]
             hvars = list(H.variables)
             # brute force on the model itself
@@ -194,7 +219,7 @@ def run_scenario(sc, sid, first_id):
 
 
 def describe(sc):
-    return {"spin": sc["spin"], "labels": repr(sc["labels"]), "f": repr(sc["f"]), "extra_weight": sc["extra"],
+    return {"spin": sc["spin"], "labels": repr(sc["labels"]), "f": repr(sc["f"]), "extra_weight": sc["extra"], "fork": sc.get("fork"),
             "steps": [{k: (repr(v) if k in ("P", "a", "ops") else v) for k, v in st.items()} for st in sc["steps"]]}
 
 
@@ -205,7 +230,7 @@ def run(tier, out, replay=None):
     global MAXV
     MAXV = 11 if thorough else 10
     try:
-        scens = [gen_scenario(rng) for _ in range(3000 if thorough else 450)]
+        scens = gate_like_scenarios() + [gen_scenario(rng) for _ in range(3000 if thorough else 450)]
         if replay:
             scens = [scens[json.load(open(replay))["record"]["scenario_index"]]]
         recs, owners = [], []
